@@ -76,7 +76,23 @@ def binary_shape(f, pushed, wrap=None):
         t = t[2]
     te = t
     if te[0] == 'var':
-        te = f.expand(te)
+        # a result bound to a name first (`let quotient = lhs.checked_div(rhs)?;`): look through that one name only, so
+        # that lhs / rhs stay names
+        hops = 0
+        while te[0] == 'var' and te[1] not in ('lhs', 'rhs') and isinstance(te[2], int) and hops < 4:
+            sd0 = f.single_def(te[2])
+            if sd0 is None or sd0['kind'] != 'assign':
+                break
+            te = f.rvalue_tree(sd0['rv'])
+            hops += 1
+        if te[0] == 'var':
+            te = f.expand(te)
+    # `lhs.checked_div(rhs)?` / `checked_rem`: on unsigned operands the checked form fails exactly when rhs == 0 and equals
+    # the wrapping form otherwise, so under `?` it is the operator *and* its zero guard
+    if te[0] == 'vfield' and te[1] in ('Continue', 'Some') and str(te[2]) == '0' and isinstance(te[3], tuple):
+        inner = te[3][1] if te[3][0] == 'trybranch' else te[3]
+        if isinstance(inner, tuple) and inner[0] == 'call' and re.search(r'core::num::checked_(div|rem)$', inner[1]) and len(inner) == 4:
+            te = ('call', inner[1].replace('checked_', 'wrapping_') + '#checked', inner[2], inner[3])
     if te[0] == 'call' and len(te) == 4:
         op = te[1]
         a, b = te[2], te[3]
